@@ -699,7 +699,7 @@ def run_stream(ctx, elk, h, m):
     corpus = load_corpus(os.path.join(vlib.ROOT, "corpus", "C02.cls.txt"))
     fam = [("cd%d" % i, c, "directed") for i, c in enumerate(directed_family())]
     gen, dist = [], {}
-    for i in range(ctx.n(40, 1500)):
+    for i in range(ctx.n(40, 200)):
         g = Gen(rng)
         c = g.case()
         for k, v in g.dist.items():
